@@ -1,10 +1,12 @@
 pub mod c01;
 pub mod c02;
+pub mod c03;
 pub mod c04;
 pub mod c05;
 pub mod c06;
 pub mod c07;
 pub mod c08;
+pub mod c11;
 pub mod c13;
 pub mod c20;
 
@@ -16,10 +18,12 @@ pub fn lookup(id: &str) -> Option<Arc<dyn Prop>> {
         "C01" => Arc::new(c01::C01),
         "C02" => Arc::new(c02::C02),
         "C05" => Arc::new(c05::C05),
+        "C03" => Arc::new(c03::C03),
         "C04" => Arc::new(c04::C04),
         "C06" => Arc::new(c06::C06),
         "C07" => Arc::new(c07::C07),
         "C08" => Arc::new(c08::C08),
+        "C11" => Arc::new(c11::C11),
         "C13" => Arc::new(c13::C13),
         "C20" => Arc::new(c20::C20),
         _ => return None,
